@@ -911,6 +911,18 @@ func checkEarlyStopIsError(c *Ctx) {
 						return true
 					}
 				}
+				// or a same-package helper that does the sending
+				if ci, ok := ins.(ssa.CallInstruction); ok {
+					if callee := ci.Common().StaticCallee(); callee != nil && callee.Pkg == b.Parent().Pkg && len(callee.Blocks) > 0 {
+						for _, hb := range callee.Blocks {
+							for _, hi := range hb.Instrs {
+								if sd, isSd := hi.(*ssa.Send); isSd && hasOriginCall(sd.X, "bridge/core.NewImportError", -1) != nil {
+									return true
+								}
+							}
+						}
+					}
+				}
 			}
 			if len(x.Succs) == 1 {
 				x = x.Succs[0]
